@@ -49,6 +49,67 @@ def has_eq(facts, a, b):
     return False
 
 
+def _pair_of(pt):
+    """(x, ite(c, a, b)) -> ite(c, (x, a), (x, b)) so that every branch is a pair."""
+    x0, y0 = pt
+    if isinstance(y0, T) and y0.op == "ite":
+        return tm.ite(y0.args[0], _pair_of((x0, tm._unfz1(y0.args[1]))), _pair_of((x0, tm._unfz1(y0.args[2]))))
+    return (x0, y0)
+
+
+def lifted_ok(val, facts, x):
+    """val is (x, the even square root of x^3 + 7) on every branch, decided by congruence mod p and the parity facts of the branch:
+    any way of computing the two candidate roots and choosing between them is accepted."""
+    from ..prims import polynf
+    c = tm.mod(tm.add([7, T("powmod", (x, 3, Pp), tm.INT)]), Pp)
+    root = T("powmod", (c, (Pp + 1) // 4, Pp), tm.INT)
+    leaves = list(c03._branches(val, list(facts)))
+    if not leaves:
+        return False, "no value"
+    for fc, leaf in leaves:
+        leaf = rules.unfz(leaf)
+        if not (isinstance(leaf, (list, tuple)) and len(leaf) == 2 and tm.veq(leaf[0], x)):
+            return False, "a branch returns %s" % tm.show(leaf)[:100]
+        y = leaf[1]
+        pos = polynf(y, Pp) == polynf(root, Pp)
+        neg = polynf(y, Pp) == polynf(tm.mul([-1, root]), Pp)
+        if not (pos or neg):
+            return False, "y is %s, not +-(x^3+7)^((p+1)/4)" % tm.show(y)[:120]
+        # parity facts of the branch, about any value congruent to +-root (both lie in [0, p-1], p is odd)
+        root_even = None
+        for f in fc:
+            Y, ev_ = None, None
+            if isinstance(f, T) and f.op == "cmp" and f.args[0] in ("eq", "ne") and isinstance(f.args[1], T) and f.args[1].op == "mod" and f.args[1].args[1] == 2 and f.args[2] in (0, 1):
+                Y, ev_ = f.args[1].args[0], (f.args[0] == "eq") == (f.args[2] == 0)
+            elif isinstance(f, T) and f.op == "truth" and isinstance(f.args[0], T) and f.args[0].op == "mod" and f.args[0].args[1] == 2:
+                Y, ev_ = f.args[0].args[0], False
+            elif isinstance(f, T) and f.op == "not" and isinstance(f.args[0], T) and f.args[0].op == "truth" and isinstance(f.args[0].args[0], T) and f.args[0].args[0].op == "mod" and f.args[0].args[0].args[1] == 2:
+                Y, ev_ = f.args[0].args[0].args[0], True
+            if Y is None:
+                continue
+            if polynf(Y, Pp) == polynf(root, Pp):
+                root_even = ev_
+            elif polynf(Y, Pp) == polynf(tm.mul([-1, root]), Pp):
+                root_even = not ev_
+        if root_even is None or root_even != pos:
+            return False, "the %s root is returned without the parity test that makes the result even" % ("positive" if pos else "negated")
+    return True, ""
+
+
+def sqrt_checked(facts, x):
+    """A dominating fact says y^2 == x^3 + 7 (mod p) for a candidate root y (inline, or through the inlined on-curve test)."""
+    from ..prims import polynf
+    c = tm.add([7, tm.mul([x, x, x])])
+    root = T("powmod", (tm.mod(tm.add([7, T("powmod", (x, 3, Pp), tm.INT)]), Pp), (Pp + 1) // 4, Pp), tm.INT)
+    y2 = tm.mul([root, root])
+    for g in facts:
+        if isinstance(g, T) and g.op == "cmp" and g.args[0] == "eq":
+            a, b = polynf(g.args[1], Pp), polynf(g.args[2], Pp)
+            if {repr(a), repr(b)} == {repr(polynf(c, Pp)), repr(polynf(y2, Pp))}:
+                return True
+    return False
+
+
 def run(ctx):
     R = ctx.R
     fs = ctx.fn("bits.bips.bip340.sign")
@@ -95,7 +156,7 @@ def run(ctx):
     ev.assumptions = {}
 
     # ---- verify
-    ev2 = ctx.evaluator(opaque={SMUL, PADD, NEG, "bits.ecmath.point_is_on_curve"})
+    ev2 = ctx.evaluator(opaque={SMUL, PADD, NEG})  # y_from_x / sqrt_mod_p / point_is_on_curve inlined: the lift is judged by congruences
     s = ev2.run(fv)
     pk, msg, sig = P("pk", tm.BYTES), P("m", tm.BYTES), P("sig", tm.BYTES)
     oks = [e for e in s.returns() if e.value not in (False, None)]
@@ -131,12 +192,13 @@ def run(ctx):
                 "no dominating fact is about R = sG - eP with the BIP340 challenge", example="any altered message or signature")
         if Rt is None:
             continue
-        okP = isinstance(Pfound, (list, tuple)) and len(Pfound) == 2 and tm.veq(Pfound[0], x) and tm.veq(Pfound[1], yeven)
+        okP, whyP = lifted_ok(tuple(Pfound) if isinstance(Pfound, list) else Pfound, facts, x) if isinstance(Pfound, (list, tuple, T)) else (False, "no point")
+        if not okP and isinstance(Pfound, (list, tuple)) and len(Pfound) == 2:
+            # the point is a pair whose y is a gated value: judge (x, y) branch by branch
+            okP, whyP = lifted_ok(tm.subst(Pfound[1], lambda t: None) if False else _pair_of(Pfound), facts, x)
         R.check("C12.2", "TERM-EQ", fv, "P = lift_x(pk): (x, even root of x^3 + 7)", okP,
-                "the public point is %s" % tm.show(Pfound)[:300], example="a public key whose canonical root is odd")
-        sq = has_eq(facts, c, T("powmod", (y, 2, Pp), tm.INT))
-        onc = any(isinstance(f, T) and f.op == "app" and f.args[0] == "bits.ecmath.point_is_on_curve" and tm.veq(f.args[1][0], x) for f in facts)
-        R.check("C12.2", "DOM", fv, "pk lifts to a curve point (square-root check or on-curve test)", sq or onc,
+                "the public point is not the even lift of pk: %s" % whyP, example="a public key whose canonical root is odd")
+        R.check("C12.2", "DOM", fv, "pk lifts to a curve point (square-root check or on-curve test)", sqrt_checked(facts, x),
                 "verify can succeed for an x that is not the abscissa of a curve point", example="pk = 00..00 (x^3+7 is a non-residue)")
         R.check("C12.2", "DOM", fv, "R != infinity", has_fact(facts, tm.cmp("isnot", Rt, None)), "R == infinity is not rejected before success")
         R.check("C12.2", "DOM", fv, "y(R) even", has_eq(facts, tm.mod(tm.idx(Rt, 1), 2), 0) or has_fact(facts, tm.lnot(odd(tm.idx(Rt, 1)))),
@@ -149,15 +211,22 @@ def run(ctx):
     xl = tm.b2i(xb, "big")
     cl = tm.mod(tm.add([7, T("powmod", (xl, 3, Pp), tm.INT)]), Pp)
     yl = T("powmod", (cl, (Pp + 1) // 4, Pp), tm.INT)
-    want = tm.ite(tm.cmp("eq", tm.mod(yl, 2), 0), (xl, yl), (xl, tm.add([Pp, tm.mul([-1, yl])])))
-    got = sl.value()
-    R.check("C12.2", "TERM-EQ", fl, "lift_x = (x, y if y even else p - y), y = c^((p+1)/4)", tm.veq(got, want),
-            "lift_x: %s" % tm.first_diff(got, want))
-    for exl in sl.returns():
+    rl = sl.returns()
+    okl, whyl = (False, "lift_x has %d success exits" % len(rl))
+    if rl:
+        okl = True
+        for exl in rl:
+            v = exl.value
+            v = _pair_of(v) if isinstance(v, (list, tuple)) and len(v) == 2 else v
+            o, w = lifted_ok(v, rules.all_facts(exl), xl)
+            if not o:
+                okl, whyl = False, w
+    R.check("C12.2", "TERM-EQ", fl, "lift_x = (x, the even one of +-(x^3+7)^((p+1)/4))", okl, "lift_x: %s" % whyl, example="an x whose canonical root is odd")
+    for exl in rl:
         fcts = rules.all_facts(exl)
-        R.check("C12.2", "DOM", fl, "lift_x fails unless c == y^2 and x < p",
-                has_eq(fcts, cl, T("powmod", (yl, 2, Pp), tm.INT)) and ival.ivals(xl, fcts) == [(0, Pp - 1)],
-                "lift_x returns a point without the square-root / range check")
+        R.check("C12.2", "DOM", fl, "lift_x fails unless the root squares to x^3 + 7 and x < p",
+                sqrt_checked(fcts, xl) and ival.ivals(xl, fcts) == [(0, Pp - 1)],
+                "lift_x returns a point without the square-root / range check", example="x = 0 (x^3 + 7 is a non-residue), x >= p")
     fpub = ctx.fn("bits.bips.bip340.pubkey")
     sp = ev2.run(fpub)
     pt = P("point", tm.TUPLE)
